@@ -213,6 +213,7 @@ func LoadProgram(dir string) (*Program, error) {
 	pr.Fset = p1.Fset
 	pr.Prog, pr.SSA = buildSSAFrom(p1.Fset, tpkg, files, info)
 	pr.Funcs = collectFuncs(pr.SSA)
+	pr.Undecided = append(pr.Undecided, checkClosers(pr)...)
 	return pr, nil
 }
 
@@ -658,4 +659,38 @@ func findPkg(p *packages.Package, path string) *types.Package {
 		return nil
 	}
 	return rec(p.Types)
+}
+
+// checkClosers scans every close(x) in the package: if x is loaded from a field with a closer
+// declaration, the enclosing function must be the declared one.
+func checkClosers(pr *Program) []string {
+	var out []string
+	if len(pr.Contracts.Closers) == 0 {
+		return nil
+	}
+	for name, fn := range pr.Funcs {
+		for _, b := range fn.Blocks {
+			for _, ins := range b.Instrs {
+				call, ok := ins.(ssa.CallInstruction)
+				if !ok {
+					continue
+				}
+				bi, ok := call.Common().Value.(*ssa.Builtin)
+				if !ok || bi.Name() != "close" {
+					continue
+				}
+				arg := call.Common().Args[0]
+				if u, ok := arg.(*ssa.UnOp); ok {
+					if fa, ok := u.X.(*ssa.FieldAddr); ok {
+						st := fa.X.Type().Underlying().(*types.Pointer).Elem()
+						key := types.TypeString(st, func(*types.Package) string { return "" }) + "." + st.Underlying().(*types.Struct).Field(fa.Field).Name()
+						if owner, ok := pr.Contracts.Closers[key]; ok && owner != name {
+							out = append(out, fmt.Sprintf("closer discipline broken: %s closes %s (declared closer: %s)", name, key, owner))
+						}
+					}
+				}
+			}
+		}
+	}
+	return out
 }
